@@ -521,6 +521,15 @@ def gen_C(thorough):
     return cases
 
 
+def gen_E(thorough):
+    """every hand-off point of the two decoders that iterate a libc reader with static storage: k = 0 .. (entries + 1)"""
+    cases = []
+    for api, n in (("disk_partitions", 3), ("users", 3)):
+        for k in range(0, n + 2):
+            cases.append({"part": "E", "api": api, "k": k})
+    return cases
+
+
 def _mnt_decode(b):
     out = bytearray()
     i = 0
@@ -1078,6 +1087,66 @@ class Worker:
             key = "if_stats[n=%d,%s]->%s" % (len(case["ifs"]), ";".join(sk), ":".join(map(str, out)))
         return {"out": out, "viol": _dedup(viol), "key": key}
 
+    # ---------------------------------------------------------------- part E
+    def run_E(self, case):
+        """hand-off schedules: a partner thread gets the processor right after the k-th call of a libc function whose result
+        lives in static storage (native/ifshim.c).  If the extension still holds the GIL there -- it must, it is about to read
+        the static buffer -- the partner cannot run (outcome 0); if it runs (outcome 1) both calls must still be right."""
+        import ctypes
+        import threading
+        lib = ctypes.CDLL(SHIM)
+        lib.vf_handoff_wait.argtypes = [ctypes.c_int]
+        api, k = case["api"], case["k"]
+        viol = []
+        if api == "disk_partitions":
+            fa, fb = self.mounts, os.path.join(self.tmp, "mounts_b")
+            la = [("/dev/a%d" % i, "/mnt/a%d" % i, "ext4", "rw,a%d" % i) for i in range(3)]
+            lb = [("/dev/bbbbbbbbbbbbbbbbbbbb%d" % i, "/srv/bbbbbbbbbbbbbbbbbb%d" % i, "vfat", "ro,b%d" % i) for i in range(4)]
+            self.write(fa, b"".join(("%s %s %s %s 0 0\n" % x).encode() for x in la))
+            self.write(fb, b"".join(("%s %s %s %s 0 0\n" % x).encode() for x in lb))
+            call_a = lambda: [tuple(x) for x in self.cl.disk_partitions(fa)]
+            call_b = lambda: [tuple(x) for x in self.cl.disk_partitions(fb)]
+            exp_a, exp_b = la, lb
+        else:
+            recs = [{"type": 7, "user": "short", "line": "short", "host": h, "rest": "zero"} for h in (":0", "name", ":0")]
+            self.write(self.utmp, b"".join(ut_record(r) for r in recs))
+            call_a = call_b = lambda: [tuple(x)[:3] for x in self.cl.users()]
+            exp_a = exp_b = None
+        self.world_dirty = True
+        if exp_a is None:
+            exp_a = exp_b = call_a()          # undisturbed call = reference
+        lib.vf_handoff_init(int(case.get("wait_ms", 250)))
+        box = {}
+
+        def partner():
+            if lib.vf_handoff_wait(20000) != 0:
+                box["b"] = "never-started"
+                return
+            try:
+                box["b"] = call_b()
+            except Exception as e:  # noqa: BLE001
+                box["b"] = "exc:%s:%s" % (type(e).__name__, e)
+            lib.vf_handoff_done()
+        t = threading.Thread(target=partner)
+        t.start()
+        lib.vf_handoff_arm(k)
+        try:
+            got_a = call_a()
+        except Exception as e:  # noqa: BLE001
+            got_a = "exc:%s:%s" % (type(e).__name__, e)
+        lib.vf_handoff_arm(-1)
+        outcome_ = lib.vf_handoff_outcome()
+        if outcome_ == -1:
+            lib.vf_handoff_release()       # fewer than k+1 calls were made: let the partner go now
+        t.join(30)
+        if got_a != exp_a:
+            viol.append(("wrong-value:%s:clobbered-by-a-concurrent-call" % api,
+                         "hand-off after libc call #%d (partner ran: %s): the call returned %r, expected %r" % (k, outcome_ == 1, got_a, exp_a)))
+        if box.get("b") != exp_b:
+            viol.append(("wrong-value:%s:partner-call" % api, "partner returned %r expected %r" % (box.get("b"), exp_b)))
+        out = ["ok", {1: "partner-ran", 0: "partner-blocked(GIL held)", -1: "point-not-reached"}[outcome_]]
+        return {"out": out, "viol": _dedup(viol), "key": "handoff[%s,k=%d]->%s" % (api, k, out[1])}
+
     def run_canary(self, case):
         import ctypes
         if case["kind"] == "segv":
@@ -1140,6 +1209,9 @@ def _worker_env(tmp, child_pid):
     e["VF_IFSHIM"] = os.path.join(tmp, "ifshim.txt")
     e["VF_C17_CHILD"] = str(child_pid or 0)
     e["UBSAN_OPTIONS"] = "print_stacktrace=0:halt_on_error=1"
+    # every Python object comes from malloc (not from pymalloc's arenas, which ASan cannot see into): a reference-count slip in
+    # the extension becomes a heap-use-after-free report at its first use instead of allocator-state-dependent corruption
+    e["PYTHONMALLOC"] = "malloc"
     e.pop("PSUTIL_DEBUG", None)
     return e
 
@@ -1348,11 +1420,11 @@ def run(ctx):
     thorough = ctx.thorough
     eps = discover_entry_points()
     a_cases, unknown = gen_A(thorough, eps)
-    parts = {"A": a_cases, "B": gen_B(thorough), "C": gen_C(thorough), "D": gen_D(thorough)}
+    parts = {"A": a_cases, "B": gen_B(thorough), "C": gen_C(thorough), "D": gen_D(thorough), "E": gen_E(thorough)}
     jobs = []
-    for p in "ABCD":
+    for p in "ABCDE":
         cs = parts[p]
-        n = max(1, min(len(cs) // 40, ctx.ncpu * (3 if p == "A" else 1)))
+        n = max(1, min(len(cs) // 40, ctx.ncpu * (3 if p == "A" else 1))) if p != "E" else len(cs)
         for k in range(n):
             jobs.append({"part": p, "k": k, "cases": cs[k::n]})     # round-robin: spreads aborting cases
     # biggest first
@@ -1385,7 +1457,7 @@ def run(ctx):
     distinct = sum(len(p["distinct"]) for p in per_part.values())
     from vf.harness import sample
     samples = []
-    for p in "ABCD":
+    for p in "ABCDE":
         samples += sample(parts[p], 3)
     cov = {
         "evaluations": total,
@@ -1408,6 +1480,7 @@ def run(ctx):
         "bounds": {"A": "arity<=2 full product; arity 3 %s; arities 0..4" % ("full product" if thorough else "all pairs x 2 nominal values of the third"),
                    "B": "1 record: type 0..9 x user/line/host kinds^3 x {zero,hot} neighbours; 0,2,3 records over 6-record alphabet; partial trailing records",
                    "C": "1 entry: device x dir x type x opts product, 5 line formats, line lengths around the 4096-byte libc buffer; 0,2,3 lines over 9-line alphabet",
+                   "E": "hand-off schedules: partner thread offered the processor after every call k of getmntent()/getutent() made by disk_partitions()/users() (k = 0..entries+1), one complete partner call each",
                    "D": "1 address entry: family x netmask x broadcast/ptp/none x name; 0,2,3 entries over 6; stats: MTU x flags x ethtool answer x name; 0,2,3 interfaces"},
         "outcome_counts": dict(sorted(outcomes.items())),
         "sanitizer": "clang -fsanitize=address,undefined -fno-sanitize-recover=all; canary abort observed",
